@@ -656,6 +656,14 @@ fn translate_unit(repo: &Path, u: &Unit, reg: &mut Registry) -> Res<String> {
         let full: Vec<String> = hs.iter().map(|h| format!("{}.{}", u.module, h)).collect();
         writeln!(out, "macro \"gen_unfold_helpers_{}\" : tactic => `(tactic| simp only [{}])", unit_name, full.join(", ")).unwrap();
     }
+    // builder N: the same for the helper METHODS only (methods of modelled structs translated on demand), for
+    // proofs that keep the free helper functions folded
+    let ms: Vec<String> = hs.iter().filter(|h| h.split_once('.').map(|(t, _)| reg.structs.contains_key(t)).unwrap_or(false)).map(|h| format!("{}.{}", u.module, h)).collect();
+    if ms.is_empty() {
+        writeln!(out, "macro \"gen_unfold_methods_{}\" : tactic => `(tactic| skip)", unit_name).unwrap();
+    } else {
+        writeln!(out, "macro \"gen_unfold_methods_{}\" : tactic => `(tactic| simp only [{}])", unit_name, ms.join(", ")).unwrap();
+    }
     Ok(out)
 }
 
